@@ -163,11 +163,15 @@ func RunFaultHistory(R *vcommon.Report, k dbcheck.Knobs, caseIdx int, rng *rand.
 		rule := drawRule(rng)
 		run.Log("FAULTS ON: %s skip=%d count=%d", rule.Name, rule.Skip, rule.Count)
 		before := fi.fired.Load()
+		surv := run.SurvivorOpen()
+		run.SurvivorSeeks(surv, 2, false)
 		fi.set(rule)
 		errs := 0
 		for i := 0; i < 24 && !run.Failed(); i++ {
 			var e bool
-			switch x := rng.IntN(12); {
+			switch x := rng.IntN(14); {
+			case x >= 12:
+				run.SurvivorSeeks(surv, 3, true)
 			case x < 3:
 				run.WriteStep()
 			case x < 5:
@@ -185,6 +189,9 @@ func RunFaultHistory(R *vcommon.Report, k dbcheck.Knobs, caseIdx int, rng *rand.
 		}
 		fi.set(nil)
 		fired := fi.fired.Load() - before
+		// the long-lived iterator must work again, and correctly
+		run.SurvivorSeeks(surv, 8, false)
+		run.SurvivorClose(surv)
 		run.Log("FAULTS OFF: %d injected, %d operations returned an error", fired, errs)
 		R.Count("fault_rounds", 1)
 		if fired > 0 {
